@@ -1,6 +1,6 @@
 """C07 — caching, closing documents and cache eviction are invisible."""
 from .. import core, histgen
-from .common import Run, all_flags, corpus_cases, generic_replay
+from .common import Run, all_flags, corpus_cases, generic_replay, check_imported
 
 PROP = "C07"
 MODULE = "PLS.Props.C07"
@@ -29,8 +29,10 @@ def warm_queries(cases, paths, rng):
         cases.q("resolve", p, "foo"); cases.q("resolve", p, "qux")
 
 
-def final_battery(cases, paths):
-    for p in sorted(paths):
+def final_battery(cases, paths, reverse=False):
+    """the same questions in both twins — asked in the opposite file order on the cold one: what is answered from
+    a memo must not depend on which file was asked about first"""
+    for p in sorted(paths, reverse=reverse):
         cases.q("avail", p)
         for n in ("foo", "bar", "baz", "qux", "quux", "fa", "fb", "fc"):
             cases.q("resolve", p, n)
@@ -130,7 +132,7 @@ def run(tier, seed):
                 pairs.append(("h%dw" % h, wq_start[kpre - 1], name, pstart, cases.idx + 1 - pstart, kinds + ["prefix %d" % kpre]))
                 continue
             starts[mode] = cases.idx + 1
-            final_battery(cases, paths)
+            final_battery(cases, paths, reverse=(mode == "cold"))
             count = cases.idx + 1 - starts[mode]
         pairs.append(("h%dw" % h, starts["warm"], "h%dc" % h, starts["cold"], count, kinds))
     # pressure-driven eviction: more than MAX_FILE_CACHE_SIZE files are analysed, a quarter of file_cache
@@ -173,6 +175,7 @@ def run(tier, seed):
     ia, ma, sp = r.run_cases(cases)
     r.evaluations = len(ia)
     r.correspond(cases, ia, ma)
+    check_imported(r, cases, ia, ma, sp)
     v = r.verdict
     for (name, idx) in evict_cases:
         a = ia.get((name, idx), "")
@@ -182,9 +185,17 @@ def run(tier, seed):
             r.nontrivial.add(("evict", name, tuple(gone)))
     ncmp = 0
     for (wn, ws, cn, cs, count, kinds) in pairs:
+        # the twins ask the same questions, possibly in another order: pair them by their text
+        cold_by_q = {}
         for off in range(count):
-            kw, kc = (wn, ws + off), (cn, cs + off)
+            cold_by_q.setdefault(tuple(cases.queries[(cn, cs + off)]), []).append((cn, cs + off))
+        for off in range(count):
+            kw = (wn, ws + off)
             q = cases.queries[kw]
+            lst = cold_by_q.get(tuple(q))
+            if not lst:
+                continue
+            kc = lst.pop(0)
             ncmp += 1
             aw, ac = ia.get(kw), ia.get(kc)
             if q[1] in ("cycles",):
@@ -201,7 +212,7 @@ def run(tier, seed):
                 v.known(hit[0]["id"], hit[0]["summary"]); continue
             msg = (f"history {wn[:-1]} ({kinds}): {' '.join(q)} answers {aw!r} on the long-lived (warm) index but {ac!r} "
                    f"on an identically built cold one (failed hypotheses: {sorted(flags) or 'none'})")
-            v.violation(f"{wn}-{ws + off}", msg, f"# {msg}\n# warm query #{ws + off}; cold case {cn} query #{cs + off}\n"
+            v.violation(f"{wn}-{ws + off}", msg, f"# {msg}\n# warm query #{ws + off}; cold case {cn} query #{kc[1]}\n"
                         + cases.replay_text(wn) + cases.replay_text(cn))
     r.stats["warm_vs_cold_answers_compared"] = ncmp
     return r.finish(RULE)
